@@ -20,6 +20,11 @@ type SpecClause struct {
 	Text  string
 }
 
+type ghostSet struct {
+	Name string
+	Expr ast.Expr
+}
+
 type LoopInfo struct {
 	Ordinal    int
 	Invariants []SpecClause
@@ -27,25 +32,27 @@ type LoopInfo struct {
 }
 
 type FuncInfo struct {
-	Obj       *types.Func
-	Decl      *ast.FuncDecl
-	Lit       *ast.FuncLit // for function-literal units
-	Pkg       *packages.Package
-	Key       string
-	Contract  *Contract
-	Requires  []SpecClause
-	Ensures   []SpecClause
-	Modifies  []ast.Expr
-	HasMod    bool
-	Decreases []ast.Expr
-	Flags     map[string]string
+	Obj        *types.Func
+	Decl       *ast.FuncDecl
+	Lit        *ast.FuncLit // for function-literal units
+	Pkg        *packages.Package
+	Key        string
+	Contract   *Contract
+	Requires   []SpecClause
+	GhostSets  []ghostSet
+	Assumes    []SpecClause
+	Ensures    []SpecClause
+	Modifies   []ast.Expr
+	HasMod     bool
+	Decreases  []ast.Expr
+	Flags      map[string]string
 	ReplayText ast.Expr
-	Lemmas    []*ast.FuncLit
-	Loops     map[ast.Stmt]*LoopInfo
-	LoopList  []ast.Stmt
-	Results   []*types.Var
-	markers   map[ast.Stmt]bool
-	eff       *Effects
+	Lemmas     []*ast.FuncLit
+	Loops      map[ast.Stmt]*LoopInfo
+	LoopList   []ast.Stmt
+	Results    []*types.Var
+	markers    map[ast.Stmt]bool
+	eff        *Effects
 }
 
 func (fi *FuncInfo) Name() string {
@@ -278,6 +285,8 @@ func (p *Prog) readMarkerPrefix(fi *FuncInfo, info *types.Info, list []ast.Stmt,
 			switch markerName(call) {
 			case "__requires":
 				fi.Requires = append(fi.Requires, SpecClause{Label: strLit(call.Args[0], info), Expr: closureExpr(call.Args[1])})
+			case "__assumes":
+				fi.Assumes = append(fi.Assumes, SpecClause{Label: strLit(call.Args[0], info), Expr: closureExpr(call.Args[1])})
 			case "__ensures":
 				fi.Ensures = append(fi.Ensures, SpecClause{Label: strLit(call.Args[0], info), Expr: closureExpr(call.Args[1])})
 			case "__invariant":
@@ -297,6 +306,8 @@ func (p *Prog) readMarkerPrefix(fi *FuncInfo, info *types.Info, list []ast.Stmt,
 			case "__modifies":
 				fi.HasMod = true
 				fi.Modifies = append(fi.Modifies, call.Args...)
+			case "__ghostset":
+				fi.GhostSets = append(fi.GhostSets, ghostSet{Name: strLit(call.Args[0], info), Expr: closureExpr(call.Args[1])})
 			case "__lemma":
 				if fl, ok := call.Args[0].(*ast.FuncLit); ok {
 					fi.Lemmas = append(fi.Lemmas, fl)
